@@ -4148,6 +4148,12 @@ func (p *parser) parseYieldExpr(loc logger.Loc) js_ast.Expr {
 		default:
 			if !p.lexer.HasNewlineBefore {
 				valueOrNil = p.parseExpr(js_ast.LYield)
+			} else {
+				// "yield" followed by a newline has no operand and, like an arrow
+				// function, is an AssignmentExpression. That means nothing can come
+				// after it other than the comma operator: "yield\n+x" and "yield\n(x)"
+				// are two statements each due to automatic semicolon insertion.
+				p.afterArrowBodyLoc = p.lexer.Loc()
 			}
 		}
 	}
